@@ -27,6 +27,17 @@ func ServeChild(prop string, in io.Reader, out io.Writer) {
 		fmt.Fprintln(os.Stderr, "no inner executor for", prop)
 		os.Exit(2)
 	}
+	// never outlive the parent: a child stuck inside a request of the code under test (a retry loop,
+	// say) would otherwise keep a core and its memory for ever
+	parent := os.Getppid()
+	go func() {
+		for {
+			time.Sleep(time.Second)
+			if os.Getppid() != parent {
+				os.Exit(3)
+			}
+		}
+	}()
 	w := bufio.NewWriter(out)
 	sc := bufio.NewScanner(in)
 	sc.Buffer(make([]byte, 1<<20), 1<<26)
@@ -71,6 +82,7 @@ func (t *tailBuf) String() string { t.mu.Lock(); defer t.mu.Unlock(); return str
 func startChild(prop string) (*childProc, error) {
 	cmd := exec.Command(os.Args[0], "child", prop)
 	cmd.Env = append(os.Environ(), "GOTRACEBACK=single", "GOMEMLIMIT=3GiB")
+	// (the child watches its parent and exits when it is gone, see ServeChild)
 	in, err := cmd.StdinPipe()
 	if err != nil {
 		return nil, err
@@ -213,6 +225,7 @@ func (p *proxy) Exec(op string) string {
 		// one request that never replies is the finding; whatever makes it hang may make hundreds of
 		// the remaining requests hang too, 40 s each: nothing further is run
 		Hung = true
+		StopChild()
 	}
 	p.flag(sig, fmt.Sprintf("%s; reproduced alone=%v; %s", why, confirmed, first))
 	return "DEAD"
